@@ -8,6 +8,9 @@ use deserr::errors::helpers::did_you_mean as real_did_you_mean;
 
 /// The function under test, with a panic turned into an output that is neither empty nor a suggestion.
 fn did_you_mean(received: &str, accepted: &[&str]) -> String {
+    if accepted.len() <= 8 && received.len() <= 64 {
+        monitor::watch::set_context(|| format!("did_you_mean({received:?}, {accepted:?})"));
+    }
     match monitor::run::quiet_catch(|| real_did_you_mean(received, accepted)) {
         Ok(s) => s,
         Err(m) => format!("<the function panicked: {m}>"),
